@@ -392,14 +392,16 @@ def build():
                               + ((" " + THIRD_PASS[pid][0]) if pid in THIRD_PASS else "")
                               + ((" " + FOURTH_PASS[pid][0]) if pid in FOURTH_PASS else "")
                               + ((" " + FIFTH_PASS[pid][0]) if pid in FIFTH_PASS else "")
-                              + ((" " + SIXTH_PASS[pid][0]) if pid in SIXTH_PASS else ""),
-                              "design_ref": c["design"] + (", 9.5" if "9.5" not in c["design"] else "") + ", 9.8, 9.9, 9.10, 9.11, 9.12"},
+                              + ((" " + SIXTH_PASS[pid][0]) if pid in SIXTH_PASS else "")
+                              + ((" " + SEVENTH_PASS[pid][0]) if pid in SEVENTH_PASS else ""),
+                              "design_ref": c["design"] + (", 9.5" if "9.5" not in c["design"] else "") + ", 9.8, 9.9, 9.10, 9.11, 9.12, 9.13, 9.14"},
             "level_note": c["note"],
             "technique": c["technique"] + (("; " + SECOND_PASS[pid][1]) if SECOND_PASS.get(pid, ("", ""))[1] else "")
             + (("; " + THIRD_PASS[pid][1]) if pid in THIRD_PASS else "")
             + (("; " + FOURTH_PASS[pid][1]) if pid in FOURTH_PASS else "")
             + (("; " + FIFTH_PASS[pid][1]) if pid in FIFTH_PASS else "")
-            + (("; " + SIXTH_PASS[pid][1]) if pid in SIXTH_PASS else ""),
+            + (("; " + SIXTH_PASS[pid][1]) if pid in SIXTH_PASS else "")
+            + (("; " + SEVENTH_PASS[pid][1]) if pid in SEVENTH_PASS else ""),
         })
     man = {
         "version": 1,
@@ -659,6 +661,37 @@ SIXTH_PASS = {
     "C19": ("Seeding round 6: what is saved before the data flag is switched covers every part of the flag.",
             "def-use of the saved value against the attributes set_data_flag writes"),
     "C20": ("Seeding round 6: a block handed out on a short cut before the level branch is recorded as well.", "all-returns rule of the block helpers"),
+}
+
+SEVENTH_PASS = {
+    "C01": ("Second hunt and seeding round 7: a recalculated tensor is secularized again; a secular mask addresses the last four "
+            "indices for every rank of data that reaches it.", "stored-result analysis (switch written as a block); rank analysis of the mask stores"),
+    "C02": ("Second hunt and round 7: every propagation routine without a field is of degree one in the initial state; evolutions "
+            "handed out by the evolution superoperator carry its frame; |psi><psi| has the conjugate on the column factor; the "
+            "Hamiltonian keeps no matrix from an earlier call.", "degree analysis over the routines and their helpers; ket-bra orientation rule; stored-result analysis of Hamiltonian"),
+    "C03": ("Round 7: a molecule handed over as an object is found by identity, not through its name.", "lookup-by-label rule on the methods that edit the aggregate"),
+    "C05": ("Round 7: the reciprocal unit is treated apart wherever the factor of a variable unit is used.", "guard rule on every read of conversion_facs_energy[<variable>]"),
+    "C06": ("Round 7: the Matsubara series is summed completely.", "every-pass accumulation rule with two-sided skip tests"),
+    "C07": ("Round 7: no apply() stores its result into the operand's existing array.", "in-place store rule over the apply() methods"),
+    "C08": ("Round 7: the Hamiltonian a superoperator is computed from keeps no matrix from an earlier basis context.", "stored-result analysis of Hamiltonian"),
+    "C09": ("Second hunt: separate containers per bath function; accessors read the components as the builders write them; "
+            "copying the components of a function into itself terminates.", "list-repetition rule, keys-known-to-builders rule, self-aliasing loop rule"),
+    "C10": ("Round 7: the dipole element of a direct 0->2 transition is the 0->2 dipole times the overlaps.", "finite evaluation over signatures with three levels"),
+    "C11": ("Round 7: state energies include the ground-state energies of the molecules that are not excited.", "finite evaluation shared with C03-G"),
+    "C12": ("Second hunt and round 7: default selections test the entry they use; the squared dipoles that select pathways are scalar products.",
+            "sibling rule on the four selections; scalar-product forms (dot, einsum letters, sum of squares)"),
+    "C13": ("Round 7: a copy of an axis carries every stored constructor parameter.", "constructor-parameter coverage of copy()"),
+    "C14": ("Round 7: the eigenbasis comes from a decomposition on every path.", "def-use of the returned matrix from eigh"),
+    "C16": ("Round 7: propagation is linear in the initial state; the single-state short cut for site operators is guarded by the "
+            "count of band states.", "degree analysis (shared); guard rule on the projector loops of Aggregate.build"),
+    "C17": ("Second hunt: every replacement of a rate matrix's array stores a float copy; axis comparisons are translation covariant.",
+            "setter scan over the MRO; affine typing (shared)"),
+    "C18": ("Second hunt and round 7: text files keep the rank; an axis filled from a file is changed as a whole; save/load entry points "
+            "call their delegates with arguments these take; the parcel machinery does not reposition a file it was given.",
+            "savetxt/loadtxt rule, axis-state rule, call-signature check, stream-position rule"),
+    "C19": ("Second hunt and round 7: the argument of an addition is checked for its shape before the sum; a refused first addition is "
+            "rolled back; a 'not there' handler of a view helper stands for one cell.", "refusal-before-effect and roll-back rules, try-scope rule"),
+    "C20": ("Round 7: the array helper distributes rows (arrays with several columns are evaluated).", "finite evaluation with two-dimensional arrays"),
 }
 
 
